@@ -35,6 +35,20 @@ def programs(tier, seed, small):
             B.add({"op": "bin", "name": op, "a": ra, "b": rb})
             B.add({"op": "meth", "name": "val", "a": ra})
             progs.append(B.build())
+    # several linear assertions over the SAME wires with different coefficients, repeated identical assertions
+    for (a, c) in ((3, 2), (-1, 4)):
+        B = gen.Builder("lin/%d,%d" % (a, c), "plain", None, {"op": "lin"})
+        ra, rb = B.opnd(("S", a)), B.opnd(("S", c))
+        n = B.nreg
+        B.add({"op": "bin", "name": "add", "a": ra, "b": rb})
+        B.add({"op": "bin", "name": "sub", "a": ra, "b": rb})
+        B.add({"op": "meth", "name": "assert_eq", "a": {"r": n}, "args": [{"c": a + c}]})
+        B.add({"op": "meth", "name": "assert_eq", "a": {"r": n + 1}, "args": [{"c": a - c}]})
+        B.add({"op": "meth", "name": "assert_eq", "a": {"r": n}, "args": [{"c": a + c}]})
+        B.add({"op": "bin", "name": "mul", "a": ra, "b": rb})
+        B.add({"op": "bin", "name": "mul", "a": {"r": n + 1}, "b": {"r": n}})
+        B.add({"op": "bin", "name": "mul", "a": {"r": n}, "b": {"r": n + 1}})
+        progs.append(B.build())
     # witness / coefficient classes
     p = 251 if small else P_BN
     special = [("empty", []), ("neg", [{"what": "priv", "v": -4}, {"what": "pub", "v": -1}]),
